@@ -42,8 +42,12 @@ class TLCResult:
 _scratch_made = []
 
 
+_scratch_seq = __import__("itertools").count()
+
+
 def scratch_dir(tag: str) -> str:
-    d = os.path.join(SCRATCH, f"{os.getpid()}-{tag}-{int(time.time()*1000)%100000000}")
+    # unique also when several threads of one check ask in the same millisecond
+    d = os.path.join(SCRATCH, f"{os.getpid()}-{tag}-{int(time.time()*1000)%100000000}-{next(_scratch_seq)}")
     os.makedirs(d, exist_ok=True)
     _scratch_made.append(d)
     return d
